@@ -378,6 +378,130 @@ theorem listBucket_strip (m : Mem) (b : Bytes) (p : Prefix) (marker : Bytes) (mk
     simp only [Option.map_some, stripB]
     rw [afterMarker_strip, listLoop_strip]
 
+/-! ### version listings do not look at metadata either -/
+
+def sv (x : Ver × Bool) : Ver × Bool := (stripV x.1, x.2)
+
+theorem allVersions_strip (o : Obj) : (stripO o).allVersions = o.allVersions.map sv := by
+  unfold Obj.allVersions stripO sv
+  cases o.data <;> simp [List.map_append, List.map_map, Function.comp_def]
+
+theorem dropWhile_strip (vs : List Ver) (vid : Nat) :
+    (vs.map stripV).dropWhile (fun v => v.id < vid) = (vs.dropWhile (fun v => v.id < vid)).map stripV := by
+  induction vs with
+  | nil => rfl
+  | cons v rest ih =>
+    simp only [List.map_cons, List.dropWhile_cons]
+    have : (stripV v).id = v.id := rfl
+    rw [this]
+    split
+    · exact ih
+    · rfl
+
+theorem versionsFrom_strip (o : Obj) (vid : Nat) : (stripO o).versionsFrom vid = (o.versionsFrom vid).map (List.map sv) := by
+  unfold Obj.versionsFrom
+  have h1 : (stripO o).versions = o.versions.map stripV := rfl
+  have h2 : (stripO o).data = o.data.map stripV := rfl
+  rw [h1, h2, dropWhile_strip]
+  cases hd : o.versions.dropWhile (fun v => v.id < vid) with
+  | cons v rest =>
+    simp only [List.map_cons, Option.map_some]
+    cases o.data <;> simp [sv, List.map_append, List.map_map, Function.comp_def]
+  | nil =>
+    simp only [List.map_nil]
+    cases o.data with
+    | none => rfl
+    | some d =>
+      simp only [Option.map_some]
+      have : (stripV d).id = d.id := rfl
+      rw [this]
+      split <;> simp [sv]
+
+theorem verLoopInner_strip (k : Key) (masked : Bool) (mk : Int) : ∀ (vs : List (Ver × Bool)) (cnt : Int) (acc : List VerEntry),
+    verLoopInner k masked mk (vs.map sv) cnt acc = verLoopInner k masked mk vs cnt acc := by
+  intro vs
+  induction vs with
+  | nil => intro cnt acc; rfl
+  | cons x rest ih =>
+    intro cnt acc
+    obtain ⟨v, c⟩ := x
+    simp only [List.map_cons, sv, verLoopInner, stripV]
+    have hh : (List.map sv rest).head?.map (·.1.id) = rest.head?.map (·.1.id) := by
+      cases rest with
+      | nil => rfl
+      | cons y ys => simp [sv, stripV]
+    rw [hh, ih]
+
+theorem nextMatching_strip (p : Prefix) : ∀ objs : List (Key × Obj), nextMatching p (mapV stripO objs) = nextMatching p objs := by
+  intro objs
+  induction objs with
+  | nil => rfl
+  | cons q rest ih =>
+    obtain ⟨k, o⟩ := q
+    have hm : mapV stripO ((k, o) :: rest) = (k, stripO o) :: mapV stripO rest := rfl
+    rw [hm]
+    simp only [nextMatching]
+    cases p.match_ k with
+    | none => exact ih
+    | some r =>
+      simp only [allVersions_strip]
+      cases ho : o.allVersions with
+      | nil => simpa using ih
+      | cons y ys => simp [sv, stripV]
+
+theorem verLoop_strip (p : Prefix) (masked : Bool) (mk : Int) (km : Bytes) (vm : Option Nat) :
+    ∀ (objs : List (Key × Obj)) (cnt : Int) (acc : VersionList),
+      verLoop p masked mk km vm (mapV stripO objs) cnt acc = verLoop p masked mk km vm objs cnt acc := by
+  intro objs
+  induction objs with
+  | nil => intro cnt acc; rfl
+  | cons q rest ih =>
+    intro cnt acc
+    obtain ⟨k, o⟩ := q
+    have hm : mapV stripO ((k, o) :: rest) = (k, stripO o) :: mapV stripO rest := rfl
+    rw [hm]
+    simp only [verLoop]
+    cases hmt : p.match_ k with
+    | none => exact ih cnt acc
+    | some r =>
+      obtain ⟨cp, mp⟩ := r
+      cases cp with
+      | true => exact ih cnt _
+      | false =>
+        simp only
+        cases vm with
+        | none => simp only [allVersions_strip, verLoopInner_strip, nextMatching_strip, ih]
+        | some vid =>
+          by_cases hk : (k == km) = true
+          · simp only [hk, if_true, versionsFrom_strip]
+            cases o.versionsFrom vid with
+            | none => rfl
+            | some vs => simp only [Option.map_some, verLoopInner_strip, nextMatching_strip, ih]
+          · simp only [hk, Bool.false_eq_true, if_false, allVersions_strip, verLoopInner_strip, nextMatching_strip, ih]
+
+theorem filter_strip (objs : List (Key × Obj)) (f : Key → Bool) :
+    (mapV stripO objs).filter (fun q => f q.1) = mapV stripO (objs.filter (fun q => f q.1)) := by
+  simp only [mapV, List.filter_map]
+  rfl
+
+/-- the version listing of the stripped store is the version listing of the store -/
+theorem listVersions_strip (m : Mem) (b : Bytes) (p : Prefix) (km : Bytes) (vm : Option Nat) (mk : Int) :
+    (strip m).listVersions b p km vm mk = m.listVersions b p km vm mk := by
+  unfold Mem.listVersions
+  rw [find_strip]
+  cases SMap.find m.buckets b with
+  | none => rfl
+  | some bk =>
+    simp only [Option.map_some, stripB]
+    split
+    · exact verLoop_strip p _ mk [] none bk.objects 0 _
+    · cases p.match_ km with
+      | none => rfl
+      | some r =>
+        simp only
+        rw [filter_strip bk.objects (fun k => !Bytes.lt k km)]
+        exact verLoop_strip p _ mk km vm _ 0 _
+
 /-- a multi-delete commutes with `strip`, with the same answer -/
 theorem deleteFold_strip (b : Bytes) (ks : List Key) : ∀ m1 m2 : Mem, strip m1 = strip m2 →
     strip (ks.foldl (fun acc k => (Mem.delete acc b k).1) m1) = strip (ks.foldl (fun acc k => (Mem.delete acc b k).1) m2) := by
@@ -413,6 +537,7 @@ inductive AOp where
   | deleteBucket (b : Bytes)
   | setVersioning (b : Bytes) (enabled : Bool)
   | list (b : Bytes) (p : Prefix) (marker : Bytes) (maxKeys : Int)
+  | listVersions (b : Bytes) (p : Prefix) (keyMarker : Bytes) (verMarker : Option Nat) (maxKeys : Int)
   | deleteMulti (b : Bytes) (ks : List Key)
 
 /-- what a client observes, metadata aside: body, length (of the body), ETag, version id, delete
@@ -423,6 +548,7 @@ inductive Obs where
   | unit (r : Res Unit)
   | put (r : Res (Option Nat))
   | listing (r : Res ObjectList)
+  | versions (r : Res VersionList)
   | multi (r : Res (List Key))
   | silent
 deriving DecidableEq
@@ -436,6 +562,7 @@ def aop (m : Mem) : AOp → Mem × Obs
   | .deleteBucket b => ((m.deleteBucket b).1, .unit (m.deleteBucket b).2)
   | .setVersioning b e => ((m.setVersioning b e).1, .unit (m.setVersioning b e).2)
   | .list b p marker mk => (m, .listing (m.listBucket b p marker mk))
+  | .listVersions b p km vm mk => (m, .versions (m.listVersions b p km vm mk))
   | .deleteMulti b ks => ((m.deleteMulti b ks).1, .multi (m.deleteMulti b ks).2)
 
 theorem mapR_stripV_idem (r : Res Ver) : mapR stripV (mapR stripV r) = mapR stripV r := by
@@ -478,6 +605,7 @@ theorem aop_strip (m : Mem) (op : AOp) :
     refine ⟨?_, by rw [h2]⟩
     rw [h1, g1, strip_idem]
   | list b p marker mk => exact ⟨(strip_idem m).symm, by simp [aop, listBucket_strip]⟩
+  | listVersions b p km vm mk => exact ⟨(strip_idem m).symm, by simp [aop, listVersions_strip]⟩
   | deleteMulti b ks =>
     obtain ⟨h1, h2⟩ := deleteMulti_strip m b ks
     obtain ⟨g1, _⟩ := deleteMulti_strip (strip m) b ks
